@@ -81,10 +81,10 @@ type MapObj struct {
 type ChanObj struct {
 	Serial int
 	Closed bool
-	// parked sender
-	SendG   *G
+	// parked sender / receiver: goroutine ids (0 = none; the main goroutine never parks as id 0 is encoded as -1... see hasSend/hasRecv)
+	SendG   int // goroutine id + 1 of the parked sender, 0 = none
 	SendVal Value
-	RecvG   *G
+	RecvG   int // goroutine id + 1 of the parked receiver, 0 = none
 	ET      types.Type
 }
 
